@@ -234,6 +234,14 @@ def run_job(job, io):
     reg = Registry()
     reg.register(U.CA, 'ns', style=tape.draw(4, 'style'))
     reg.register(U.CB, GLOBAL, style=tape.draw(4, 'style-g'))
+    import warnings as _w
+    with _w.catch_warnings():
+        _w.simplefilter('ignore')
+        # classes the heuristics would treat as namedtuple / struct sequence, explicitly registered as custom nodes:
+        # the explicit registration must win on both sides, in the namespace it was made in only
+        reg.register(U.NT2, 'ns', style=1)
+        reg.register(U.STRUCTSEQ_TYPES[0], 'ns', style=3)
+        reg.register(U.NTM, GLOBAL, style=0)
 
     def viol(cls, site, msg):
         if len(violations) < 6:
@@ -633,11 +641,17 @@ class OneNT(collections.namedtuple('OneNTBase', ['v'])):
 def onelevel(tape, viol, keys, probes, oplog):
     ctx = gen.swarm_ctx(tape, custom_classes=(U.CA, U.CB))
     tree = gen.gen_tree(tape, 2 + tape.draw(12, 'budget'), ctx)
-    special = tape.draw(5, 'ol-special')
+    special = tape.draw(8, 'ol-special')
     if special == 3:
         tree = SwapNT(ctx.leaf(), [ctx.leaf()])
     elif special == 4:
         tree = OneNT(tree)
+    elif special == 5:
+        tree = U.NT2(tree)
+    elif special == 6:
+        tree = U.make_structseq([tree] + [ctx.leaf() for _ in range(8)])
+    elif special == 7:
+        tree = U.NTM(tree, ctx.leaf())
     ns = ('', 'ns', 'other')[tape.draw(3, 'ol-ns')]
     nil = bool(tape.draw(2, 'ol-nil'))
     mode = tape.draw(3, 'ol-mode')
